@@ -334,6 +334,15 @@ func ConformModel(family, tier string, stride, shard, of int) []ConformRecord {
 			mb, _ := json.Marshal(C06ModelTimeline(cs))
 			recs = append(recs, ConformRecord{Index: k, Case: cb, Model: mb})
 		}
+	case "C07-collision":
+		for k, cs := range collConformCases() {
+			if k%of != shard {
+				continue
+			}
+			cb, _ := json.Marshal(cs)
+			mb, _ := json.Marshal(C07ModelCollision(cs))
+			recs = append(recs, ConformRecord{Index: k, Case: cb, Model: mb})
+		}
 	default:
 		for k, cc := range ConformCases(family, tier, stride) {
 			if k%of != shard {
@@ -358,6 +367,14 @@ func ConformReal(family string, rec *ConformRecord) {
 		real := C06RealTimeline(cs)
 		rec.Real, _ = json.Marshal(real)
 		rec.Agree, rec.Why = timelinesAgree(model, real)
+	case "C07-collision":
+		var cs collConformCase
+		var model CollOutcome
+		json.Unmarshal(rec.Case, &cs)
+		json.Unmarshal(rec.Model, &model)
+		real := C07RealCollision(cs)
+		rec.Real, _ = json.Marshal(real)
+		rec.Agree, rec.Why = collOutcomesAgree(model, real)
 	default:
 		var cs stimCase
 		var model StimTranscript
